@@ -76,7 +76,7 @@ fn drain(fd: RawFd) -> Vec<u8> {
 }
 
 #[derive(Default, Clone, Debug)]
-pub struct WireStats { pub backlogs: u64, pub autorepeat_of_held_key: u64, pub failed_sends_before: u64, pub sends_before: u64, pub foreign: u64, pub foreign_syn_other: u64, pub foreign_syn: u64, pub foreign_msc: u64, pub foreign_autorepeat: u64, pub foreign_unknown_code: u64, pub foreign_other_type: u64, pub foreign_big_code: u64, pub eagain_mid_skip: u64, pub batches: u64, pub records_written: u64 }
+pub struct WireStats { pub read_eintr: u64, pub backlogs: u64, pub autorepeat_of_held_key: u64, pub failed_sends_before: u64, pub sends_before: u64, pub foreign: u64, pub foreign_syn_other: u64, pub foreign_syn: u64, pub foreign_msc: u64, pub foreign_autorepeat: u64, pub foreign_unknown_code: u64, pub foreign_other_type: u64, pub foreign_big_code: u64, pub eagain_mid_skip: u64, pub batches: u64, pub records_written: u64 }
 
 pub struct Pipes { pub kbd_r: RawFd, pub kbd_w: RawFd, pub tab_r: RawFd, pub tab_w: RawFd, pub out_r: RawFd, pub out_w: RawFd }
 impl Pipes {
@@ -321,10 +321,16 @@ pub fn execute_c(case: &CaseC, stats: &mut WireStats, digest: &mut u64) -> Optio
   // digest over (type, code, value) only: the time stamp of a record is not pinned by the property
   for rec in bytes.chunks(REC) { if rec.len() == REC { let (t, c, v) = decode_record(rec); d.u(t as u64); d.u(c as u64); d.u(v as u32 as u64); } else { d.u(0xBAD); d.u(rec.len() as u64); } }
   if let Err(e) = check_wire(&bytes, &case.batch) { return Some(Violation::new("C18-wire", 0, e)); }
-  let read_all = |reader: &mut DevInputReader| -> Result<Vec<Event>, String> {
+  // one case in five: one read(2) on the device is interrupted by a signal (EINTR, nothing
+  // transferred). A reader may report that or try again itself; the caller tries again; either way
+  // every record must come out exactly once
+  let ch = case.hash();
+  if ch % 5 == 0 { crate::sysseam::fail_read_call_once(p.kbd_r, ((ch >> 8) % 14) as u32, libc::EINTR); stats.read_eintr += 1; }
+  let mut eintr_seen = 0u64;
+  let mut read_all = |reader: &mut DevInputReader| -> Result<Vec<Event>, String> {
     let mut got = vec![];
     loop {
-      match reader.next() { Ok(e) => got.push(e), Err(nix::Error::Sys(Errno::EAGAIN)) => break, Err(e) => return Err(format!("{}", e)) }
+      match reader.next() { Ok(e) => got.push(e), Err(nix::Error::Sys(Errno::EAGAIN)) => break, Err(nix::Error::Sys(Errno::EINTR)) if eintr_seen < 4 => { eintr_seen += 1; continue; } Err(e) => return Err(format!("{}", e)) }
       if got.len() > 100_000 { return Err("reader does not stop".into()); }
     }
     Ok(got)
@@ -465,7 +471,7 @@ impl Campaign for WireCampaign {
     acc.fault("foreign_syn_report", stats.foreign_syn); acc.fault("foreign_syn_dropped_config_mt", stats.foreign_syn_other); acc.fault("foreign_msc_scan", stats.foreign_msc); acc.fault("foreign_autorepeat_value2", stats.foreign_autorepeat);
     acc.fault("foreign_unknown_key_code", stats.foreign_unknown_code); acc.fault("foreign_code_above_enum", stats.foreign_big_code); acc.fault("foreign_other_type_or_value", stats.foreign_other_type);
     acc.fault("eagain_while_skipping_foreign_records", stats.eagain_mid_skip);
-    acc.fault("earlier_send_failed_eagain_on_a_full_queue", stats.failed_sends_before); acc.probe_n("earlier_batch_through_the_same_writer", stats.sends_before + stats.failed_sends_before);
+    acc.fault("device_read_interrupted_eintr_once_armed", stats.read_eintr); acc.fault("earlier_send_failed_eagain_on_a_full_queue", stats.failed_sends_before); acc.probe_n("earlier_batch_through_the_same_writer", stats.sends_before + stats.failed_sends_before);
     acc.count("batches_written", stats.batches); acc.count("records_fed_to_reader", stats.records_written); acc.count("steps", 1 + case.bursts.len() as u64);
     let nt = case.batch.len() >= 2 || case.bursts.iter().any(|b| b.iter().any(|r| matches!(r, Rec::Foreign(..))));
     let sample = if ctx.want_sample { Some(case.json()) } else { None };
